@@ -1,5 +1,5 @@
 (* C08 - Applying a diff gives the database of the new data file.
-   Only statements closed by [exact]; proofs are in Proofs/Diff.v (and Proofs/Compile.v,
+   Only statements closed by [exact]; proofs are in Proofs/Diff.v (and Proofs/CompilePipe.v,
    Proofs/Batch.v).  The codec is a parameter: conv l = Codec.ConvertLn on line l (for the
    serial and key layout of the database), feature = the feature record.
    The files are PREPROCESSED: subnet lines have been replaced by range point lines, so
@@ -12,7 +12,7 @@
      line_ok l         l is empty, a comment, or '+' / '-' followed by a line the codec accepts
      msub D L          D is contained in L as a multiset
    vals db k = what a reader gets for key k; Permutation = multiset equality. *)
-From DnsV Require Import Model.Diff Spec.MapOfLists Proofs.MultiValue Proofs.Batch Proofs.Compile Proofs.Diff.
+From DnsV Require Import Model.Diff Spec.MapOfLists Proofs.MultiValue Proofs.Batch Proofs.CompilePipe Proofs.Diff.
 Open Scope N_scope.
 
 Theorem C08_diff_is_recompile : forall conv feature sort, sort_ok sort -> forall A B d dbA,
